@@ -521,8 +521,10 @@ def run(repo: Repo) -> Result:
     res.ob("module-containers", max(n_glob, 1))
 
     # ---- C17-FRESH ---------------------------------------------------------------
+    from ..normalize import nfunc as _nfunc17
+
     for m in ("render", "render_async"):
-        f = repo.own_method("liquid.template.BoundTemplate", m)
+        f = _nfunc17(repo, repo.own_method("liquid.template.BoundTemplate", m), keep=("make_globals", "_get_buffer", "render_with_context", "render_with_context_async"))  # private helpers inlined
         res.ob(f"fresh:{f.qual}")
         ctor = [c for c in calls(f.node) if text(c.func) == "self.context_class"]
         if len(ctor) != 1 or "dict(*args, **kwargs)" not in text(ctor[0]):
